@@ -20,7 +20,7 @@ def parse_authentication_credential_json(json_val: Union[str, dict]) -> Authenti
     if isinstance(json_val, str):
         try:
             json_val = json.loads(json_val)
-        except JSONDecodeError:
+        except ValueError:
             raise InvalidJSONStructure("Unable to decode credential as JSON")
 
     if not isinstance(json_val, dict):
